@@ -72,7 +72,10 @@ fn render(recs: &[(usize, usize)], crlf: bool, final_newline: bool) -> (Vec<u8>,
 /// Builds the documents and writes `.fa`, `.fa.fai`, `.fa.gz`, `.fa.gz.fai`, `.fa.gz.gzi`.
 /// `Err` = a setup-time violation (path-based indexer / fai reader disagree with the naive parse).
 pub fn build_docs(dir: &Path) -> Result<Vec<Doc>, Violation> {
-    let specs: [(&'static str, Vec<(usize, usize)>, bool, bool, usize); 6] = [
+    let specs: [(&'static str, Vec<(usize, usize)>, bool, bool, usize); 9] = [
+        ("one-line-last-record-no-final-newline-lf(<8KiB)", vec![(7, 3), (9, 60)], false, false, 7),
+        ("one-line-last-record-no-final-newline-crlf(<8KiB)", vec![(7, 3), (1, 1), (9, 60)], true, false, 7),
+        ("single-one-line-record-no-final-newline(<8KiB)", vec![(4, 60)], false, false, 7),
         ("small-lf(<8KiB)", vec![(7, 3), (12, 5), (5, 2)], false, true, 7),
         ("small-crlf(<8KiB)", vec![(7, 3), (12, 5), (5, 2)], true, false, 7),
         ("medium-lf(>8KiB)", vec![(333, 60), (5000, 70), (3000, 50)], false, true, 61),
@@ -96,15 +99,36 @@ pub fn build_docs(dir: &Path) -> Result<Vec<Doc>, Violation> {
             fai_text.extend_from_slice(&n.name);
             fai_text.extend_from_slice(format!("\t{}\t{}\t{}\t{}\n", n.length, n.offset, n.line_bases, n.line_width).as_bytes());
         }
+        // the .fai next to the plain file is written by the harness, the one next to the bgzipped
+        // twin by noodles (fai::fs::write of the path-based indexer's output, below)
         io(fs::write(dir.join(format!("doc{k}.fa.fai")), &fai_text));
-        io(fs::write(dir.join(format!("doc{k}.fa.gz.fai")), &fai_text));
         // .gzi (htslib: u64 count, then (compressed, uncompressed) pairs, little endian)
         let mut gzi_bytes = (bgz.gzi.len() as u64).to_le_bytes().to_vec();
         for (c, u) in &bgz.gzi {
             gzi_bytes.extend_from_slice(&c.to_le_bytes());
             gzi_bytes.extend_from_slice(&u.to_le_bytes());
         }
-        io(fs::write(dir.join(format!("doc{k}.fa.gz.gzi")), &gzi_bytes));
+        // the .gzi is written by noodles (gzi::fs::write) and must have exactly that layout
+        let gzi_path = dir.join(format!("doc{k}.fa.gz.gzi"));
+        let gzi_index = bgzf::gzi::Index::from(bgz.gzi.clone());
+        let gzi_problem = match bgzf::gzi::fs::write(&gzi_path, &gzi_index) {
+            Err(e) => Some(format!("gzi::fs::write: {e}")),
+            Ok(()) => match fs::read(&gzi_path) {
+                Ok(b) if b == gzi_bytes => match bgzf::gzi::fs::read(&gzi_path) {
+                    Ok(ix) if ix == gzi_index => None,
+                    other => Some(format!("gzi::fs::read: {:?}", other.map(|i| i.as_ref().to_vec()).map_err(|e| e.to_string()))),
+                },
+                other => Some(format!("gzi::fs::write wrote {:?}", other.map(|b| vmc::hex(&b)).map_err(|e| e.to_string()))),
+            },
+        };
+        if let Some(p) = gzi_problem {
+            return Err(Violation::new(
+                format!("op=path-index entry=gzi::fs doc={label} symptom=differs"),
+                format!("gzi::fs::write / read of {:?}", bgz.gzi),
+                vmc::hex(&gzi_bytes),
+                p,
+            ));
+        }
 
         // path-based indexer and fai reader against the naive parse
         let tuple = |r: &fai::Record| (r.name().to_vec(), r.length(), r.position(), r.line_base_count().get(), r.line_width().get());
@@ -123,6 +147,27 @@ pub fn build_docs(dir: &Path) -> Result<Vec<Doc>, Violation> {
             }
         }
         let index = fasta::fs::index(&fa).expect("checked");
+        // the indexer's output through fai::fs::write -> file (== the harness text) -> fai::fs::read
+        let nfai = dir.join(format!("doc{k}.fa.gz.fai"));
+        let fai_problem = match fai::fs::write(&nfai, &index) {
+            Err(e) => Some(format!("fai::fs::write: {e}")),
+            Ok(()) => match fs::read(&nfai) {
+                Ok(b) if b == fai_text => match fai::fs::read(&nfai) {
+                    Ok(ix) if ix == index => None,
+                    other => Some(format!("fai::fs::read of the written index: {:?}", other.map(|ix| ix.as_ref().iter().map(tuple).collect::<Vec<_>>()).map_err(|e| e.to_string()))),
+                },
+                other => Some(format!("fai::fs::write wrote {:?}", other.map(|b| String::from_utf8_lossy(&b).into_owned()).map_err(|e| e.to_string()))),
+            },
+        };
+        if let Some(p) = fai_problem {
+            let shape = if naive.iter().any(|n| n.line_width == n.line_bases) { "line_width-equals-line_bases" } else { "regular" };
+            return Err(Violation::new(
+                format!("op=path-index entry=fai::fs::write+read shape={shape} symptom=differs"),
+                format!("fasta::fs::index -> fai::fs::write -> fai::fs::read on document {label} (records {recs:?}, crlf={crlf}, final newline={final_newline})"),
+                String::from_utf8_lossy(&fai_text).into_owned(),
+                p,
+            ));
+        }
         docs.push(Doc { label, plain, naive, def_offsets, gz: bgz.bytes, gzi: bgz.gzi, fa, fa_gz, index });
     }
     Ok(docs)
